@@ -103,6 +103,41 @@ Theorem C04_seq_distinct : forall n, inc_seq (inc_seq n) <> inc_seq n.
 Proof. exact inc_seq_changes. Qed.
 Print Assumptions C04_seq_distinct.
 
+(* ---- the accessibility probe is_ipmc_accessible (ipmb-dev, Aardvark; Rmcp has none) ---- *)
+(* "accessible" is reported only on a received frame passing the filter for the probe's header *)
+Theorem C04_probe_attribution_i2c : forall view wire st a s d st' sent rest,
+  i2c_probe view wire st a s = (Ok d, st', sent, rest) ->
+  exists f x, In f (frames_of s) /\ view f = Ok x /\
+              rx_filter (probe_header st a) x default_opts = Ok true.
+Proof. exact i2c_probe_attribution. Qed.
+Print Assumptions C04_probe_attribution_i2c.
+
+(* the probe leaves the state alone and its frame carries the CURRENT counter value *)
+Theorem C04_seq_probe_i2c : forall view wire st a s out st' sent rest,
+  (forall tx, nth 4 (wire tx) 0 = nth 4 tx 0) ->
+  i2c_probe view wire st a s = (out, st', sent, rest) ->
+  st' = st /\ forall f, In f sent -> nth 4 f 0 / 4 = i_next_seq st.
+Proof. exact i2c_probe_seq. Qed.
+Print Assumptions C04_seq_probe_i2c.
+
+(* "consecutive requests carry different sequence numbers", with probes in the history:
+   FALSE for a probe that follows a request - the probe re-uses the request's number (here the
+   two frames are even identical, so a late reply to the request answers the probe): *)
+Theorem C04_seq_probe_after_request_refuted :
+  exists st r s1 a s2 out1 st1 f1 rest1 out2 st2 f2 rest2,
+    ipmbdev_send_receive st r s1 = (out1, st1, [f1], rest1) /\
+    i2c_probe ipmbdev_view ipmbdev_wire st1 a s2 = (out2, st2, [f2], rest2) /\
+    nth 4 f1 0 / 4 = nth 4 f2 0 / 4 /\ f1 = f2.
+Proof. exact probe_reuses_request_number. Qed.
+Print Assumptions C04_seq_probe_after_request_refuted.
+
+(* ... and TRUE for every REQUEST, whatever was written before it: by C04_seq_* and
+   C04_seq_probe_i2c the counter always equals the number of the last frame written (request or
+   probe), and a request carries counter + 1 mod 64, which differs from it for every value *)
+Theorem C04_seq_distinct_except_known : forall n, inc_seq n <> n.
+Proof. exact inc_seq_differs. Qed.
+Print Assumptions C04_seq_distinct_except_known.
+
 (* ---- liveness (event-script level; the timing side is outside: partial label) ---- *)
 (* LAN, repaired code: a matching reply preceded by unrelated frames - frames the loop
    neither accepts nor raises on: other sequence number / command / netfn / LUN, bad
